@@ -468,6 +468,7 @@ fn wire_class(toks: &Value) -> String {
                 let min = if nv < 253 { 1 } else if nv <= 0xffff { 3 } else { 5 };
                 if w != min { tags.push(format!("nonminimal-varint-w{}", w)); }
             }
+            "vihi" => tags.push("compactsize-above-2^32".to_string()),
             "u8" => {
                 let v = t[1].as_u64().unwrap();
                 if v == 12 { tags.push("prefix-12".to_string()); }
@@ -688,7 +689,7 @@ fn header_class(h: &Value) -> String {
     if s(e, "kind") == "proof" {
         format!("proof/ch{}/sol{}", n(&e["challenge"], "len"), n(&e["solution"], "len"))
     } else {
-        format!("dynafed/{}-{}/wit{}", s(&e["cur"], "kind"), s(&e["prop"], "kind"), e["wit"].as_array().unwrap().len())
+        format!("dynafed/{}-{}/wit{}{}", s(&e["cur"], "kind"), s(&e["prop"], "kind"), e["wit"].as_array().unwrap().len(), if s(h, "version") == "a0000000" { "/marker-bit-in-memory" } else { "" })
     }
 }
 
@@ -758,9 +759,12 @@ pub fn header(args: &[String], out: &mut Out) {
             if got != want { bad.push((format!("C01/header/encode/{}", cls), String::new())); }
             let mut cw = CountWriter(0);
             if h.consensus_encode(&mut cw).unwrap() != cw.0 { bad.push((format!("C01/header/reported-length/{}", cls), String::new())); }
-            match deserialize::<BlockHeader>(&want) {
-                Ok(b) if b == h && serialize(&b) == want => {}
-                other => bad.push((format!("C01/header/decode/{}", cls), format!("{:?}", other.map(|_| ()).map_err(|e| e.to_string())))),
+            // (an in-memory value whose version field already holds the marker bit is not what its wire form decodes to: C02 only)
+            if c["canonical"].as_bool().unwrap_or(true) {
+                match deserialize::<BlockHeader>(&want) {
+                    Ok(b) if b == h && serialize(&b) == want => {}
+                    other => bad.push((format!("C01/header/decode/{}", cls), format!("{:?}", other.map(|_| ()).map_err(|e| e.to_string())))),
+                }
             }
             // C02: block hash preimage, clear_witness
             let pre = eval_seq(&c["hashpre"], &ctx);
